@@ -377,7 +377,7 @@ distinct = distinct kind sequences / (message index, offset-in-message class, ty
     });
 
     // ---- random streams ------------------------------------------------------------------------
-    let n_streams: u64 = ctx.tier.pick(1_500, 60_000);
+    let n_streams: u64 = ctx.tier.pick(3_000, 60_000);
     par_cases(ctx, n_streams, |i, obs| {
         let mut rng = Rng::derive(seed, 3, 1000 + i);
         let len = match rng.below(8) {
@@ -385,9 +385,15 @@ distinct = distinct kind sequences / (message index, offset-in-message class, ty
             1 => rng.urange(100, 300),
             _ => rng.urange(1, 40),
         };
-        let mut items = Vec::with_capacity(len);
+        let mut items: Vec<Item> = Vec::with_capacity(len);
         let mut code_cursor = rng.u8();
         for _ in 0..len {
+            // a retransmitted message: byte-identical to its predecessor, still a message of its own
+            if !items.is_empty() && rng.chance(1, 10) {
+                let prev: Item = items[items.len() - 1].clone();
+                items.push(prev);
+                continue;
+            }
             let it = match rng.below(5) {
                 0 | 1 => gen_radial(&mut rng),
                 2 => {
